@@ -581,14 +581,14 @@ class DocGen:
         return sels
 
     def reach(self, names):
-        seen, todo = set(), list(names)
+        seen, todo = set(), sorted(names)
         while todo:
             n = todo.pop()
             if n in seen:
                 continue
             seen.add(n)
-            todo += list(self.frag_uses.get(n, ()))
-        return seen
+            todo += sorted(self.frag_uses.get(n, ()))
+        return sorted(seen)
 
     def operation(self, optype, name):
         sch = self.sch
